@@ -395,11 +395,11 @@ def main():
         sys.exit(2)
     spec = PLAN.PLAN[pid]
     t0 = time.time()
-    evp = os.path.join(VERIF, "evidence", pid + ".json")
+    evp = os.path.join(os.environ.get("VERIF_EVIDENCE_DIR", os.path.join(VERIF, "evidence")), pid + ".json")
     os.makedirs(os.path.dirname(evp), exist_ok=True)
     if os.path.exists(evp):
         os.remove(evp)
-    os.makedirs(os.path.join(VERIF, "replay"), exist_ok=True)
+    os.makedirs(os.environ.get("VERIF_REPLAY_DIR", os.path.join(VERIF, "replay")), exist_ok=True)
     workdir = tempfile.mkdtemp(prefix="verif-verus-", dir=SCRATCH_ROOT)
     ks = None
     obligations = []  # dicts: id, engine, kind, status(discharged|failed|undecided), detail, solver_s, label
